@@ -517,7 +517,7 @@ def loop_over_list(interp, st, env, lst, sl=None):
     inv = interp.loop_invariants.get(sig)
     handlers = interp.__dict__.get('list_loop_handlers', {})
     # by full text, or by what is iterated (so that renaming the loop variable does not lose the handler)
-    handler = handlers.get(sig) or handlers.get('iter:' + ast.unparse(st.iter))
+    handler = handlers.get(sig) or handlers.get('iter:' + ast.unparse(st.iter)) or handlers.get('list:' + str(getattr(lst, 'tag', '')))
     if handler is not None:
         return handler(interp, st, env, lst, sl)
     raise Unsupported(f"loop over a list of arbitrary length without a handler: {sig}")
